@@ -6,15 +6,18 @@ rows = []
 for resf in sorted(glob.glob('/verif/work/seedres/*.json')):
     r = json.load(open(resf))
     sid = r['id']                      # e.g. C01_A or r2C01_A
-    m = re.match(r'(r[234])?(\w+?)_([AB])$', sid)
+    m = re.match(r'(r[2349])?(\w+?)_([AB])$', sid)
     rnd, key, x = m.group(1) or '', m.group(2), m.group(3)
     prop = r.get('property', key)
-    src = {'': '/tmp/seedout', 'r2': '/tmp/seedout2', 'r3': '/tmp/seedout3', 'r4': '/tmp/seedout4'}[rnd] + '/%s/%s' % (key, x)
+    src = {'': '/tmp/seedout', 'r2': '/tmp/seedout2', 'r3': '/tmp/seedout3', 'r4': '/tmp/seedout4', 'r9': '/tmp/seedout9'}[rnd] + '/%s/%s' % (key, x)
     ok = r.get('applies') and '211 passed' in r.get('baseline_with_change', '') and r.get('demo_with_change', {}).get('exit') not in (0, None) and r.get('demo_without_change', {}).get('exit') == 0
     caught = {c: v['exit'] == 1 and v['violation_lines'] > 0 for c, v in r.get('checks', {}).items()}
     dst = '/verif/seeded/%s' % sid
-    readme = open(src + '/README.md').read() if os.path.exists(src + '/README.md') else ''
-    title = next((l.strip('# ').strip() for l in readme.splitlines() if l.strip()), '')
+    readme = open(src + '/README.md').read() if os.path.exists(src + '/README.md') else (open(dst + '/README.agent.md').read() if os.path.exists(dst + '/README.agent.md') else '')
+    tl = [l.strip('# ').strip() for l in readme.splitlines() if l.strip()]
+    title = (tl[0] if tl else '')
+    if title.startswith('PROPERTY:') and len(tl) > 1:
+        title = title + ' — ' + tl[1]
     if ok and (not os.path.exists(dst + '/meta.json') or sid in sys.argv[1:]):   # never overwrite a stored (possibly ported) seed unless named
         shutil.rmtree(dst, ignore_errors=True)
         os.makedirs(dst)
@@ -45,5 +48,5 @@ with open('/verif/seeded/INDEX.md', 'w') as f:
             if first:
                 break
         f.write('| %s | %s | %s | %s | %s | %s |\n' % (sid, prop, 'yes' if ok else ('no: ' + ('patch does not apply' if not r.get('applies') else 'demo/test condition not met')),
-                ', '.join('%s:%s' % (c, 'CAUGHT' if y else 'missed') for c, y in caught.items()) or '-', first.replace('|', '/'), title[:120].replace('|', '/')))
+                ', '.join('%s:%s' % (c, 'CAUGHT' if y else 'missed') for c, y in caught.items()) or '-', first.replace('|', '/'), title[:170].replace('|', '/')))
 print(open('/verif/seeded/INDEX.md').read())
